@@ -699,6 +699,9 @@ MEDDLY::dd_edge::iterator::iterator(const dd_edge &E, const minterm* _mask)
 MEDDLY::dd_edge::iterator::iterator(const dd_edge &E, unsigned (*RNG)(unsigned))
 {
     init_with_forest( E.getForest() );
+    if (!F) {
+        throw error(error::FOREST_MISMATCH, __FILE__, __LINE__);
+    }
 
     mask = nullptr;
     root_ev = E.getEdgeValue();
@@ -846,7 +849,11 @@ MEDDLY::dd_edge::iterator::~iterator()
 
 void MEDDLY::dd_edge::iterator::restart(const dd_edge &E, const minterm* _mask)
 {
-    if (F != E.getForest()) {
+    //
+    // An edge that is not attached to any forest (never attached, or its
+    // forest was destroyed) cannot be iterated.
+    //
+    if (!F || (F != E.getForest())) {
         throw error(error::FOREST_MISMATCH, __FILE__, __LINE__);
     }
 
